@@ -48,7 +48,7 @@ PROPOSED_KNOWN = [
 def own_coq_build():
     """Until integrated in _CoqProject: compile our own .v files if stale."""
     th = os.path.join(common.COQDIR, "theories")
-    order = ["Solvers/CG.v", "Solvers/CGLS.v", "Solvers/CGLSMono.v", "Corr/CheckC09.v"]
+    order = ["Solvers/CG.v", "Solvers/CGLS.v", "Solvers/CGLSFacts.v", "Corr/CheckC09.v"]
     proj = open(os.path.join(common.COQDIR, "_CoqProject")).read()
     prev = max(os.path.getmtime(os.path.join(th, f)) for f in ("Base/Mat.vo", "Inst/GaussField.vo", "Corr/Check.vo"))
     for rel in order:
@@ -191,16 +191,16 @@ def py_checks(case, out):
         bad.append(("callback_last", "last callback argument is not the returned x"))
     for k in range(min(len(cost), len(xs))):
         act = float(np.linalg.norm(y - A @ xs[k]))
-        if abs(cost[k] - act) > 1e-7 * scale:
+        if abs(cost[k] ** 2 - act ** 2) > TOL * (1 + act ** 2):
             bad.append(("cost", "cost[%d]=%.12g but ||y-Op x_%d||=%.12g" % (k, cost[k], k, act)))
             break
     if solver == "cgls":
         x = out["x"]
         act1 = float(np.linalg.norm(y - A @ x))
         act2 = float(np.sqrt(act1 ** 2 + damp ** 2 * np.linalg.norm(x) ** 2))
-        if abs(out["r1"] - act1) > 1e-7 * scale:
+        if abs(out["r1"] ** 2 - act1 ** 2) > TOL * (1 + act1 ** 2):
             bad.append(("r1norm", "r1norm=%.12g but ||y-Op x||=%.12g" % (out["r1"], act1)))
-        if abs(out["r2"] - act2) > 1e-7 * scale:
+        if abs(out["r2"] ** 2 - act2 ** 2) > TOL * (1 + act2 ** 2):
             bad.append(("r2norm", "r2norm=%.12g but sqrt(||y-Op x||^2+damp^2||x||^2)=%.12g" % (out["r2"], act2)))
         J = [float(np.linalg.norm(y - A @ v) ** 2 + damp ** 2 * np.linalg.norm(v) ** 2) for v in xs]
         for k in range(len(J) - 1):
@@ -568,3 +568,142 @@ def trace_checks(c, out):
             bad.append(("trace_end", "on_step_end #%d saw iiter=%d, len(cost)=%d (expected %d, %d)" % (k, it, lc, k + 1, k + 2)))
             break
     return bad
+
+
+# ---------------------------------------------------------------- reporting (shared by c09.py / c10.py)
+KINDS = {
+    "C09": {"minimiser", "lsqr_iterate", "lsqr_cost", "lsqr_r1norm", "lsqr_r2norm", "lsqr_anorm", "lsqr_acond", "lsqr_arnorm",
+            "lsqr_xnorm", "error"},
+    "C10": {"cost_length", "callback_count", "callback_last", "cost", "r1norm", "r2norm", "monotone", "trace_count", "trace_begin",
+            "trace_end", "lsqr_cost", "lsqr_r1norm", "lsqr_r2norm", "iiter", "error"},
+}
+CODES = {"C09": {1, 4, 15}, "C10": {1, 2, 3, 5, 6, 7, 9, 10, 11, 12, 13, 14, 15}}
+CODE_KIND = {10: ("cost", "cost_length", "callback_count"), 11: ("r2norm",), 12: ("r1norm",), 14: ("monotone",)}
+CODE_TXT = {1: "iterates differ from the model's", 2: "cost history differs from the model's", 3: "iteration count differs from the model's run loop",
+            4: "the model does not reach the minimiser in n steps", 5: "r2norm differs from the model's", 6: "r1norm differs from the model's (kold)",
+            7: "istop differs from the model's", 9: "functional increases along the model iterates", 10: "cost_k is not ||y-Op x_k|| (exact evaluation)",
+            11: "r2norm is not truthful (exact evaluation)", 12: "r1norm is not truthful (exact evaluation)", 13: "Callbacks trace differs from the model's events",
+            14: "functional increases along the implementation's iterates (exact evaluation)", 15: "malformed case"}
+
+
+def describe(c):
+    A = c["Aop"] if "Aop" in c else c["A"]
+    return "%s %s %dx%d %s x0=%s damp=%s niter=%s tol=%.3g" % (c.get("solver", "lsqr"), c["kind"], A.shape[0], A.shape[1],
+                                                              "complex" if c["cplx"] else "real", c["x0k"], c["damp"], c["niter"], c.get("tol", 0.0))
+
+
+def report(pid, tier):
+    R = common.Report(pid, tier)
+    common.coq_build()
+    own_coq_build()
+    thms, axioms = common.props_assumptions(pid)
+    res = run(tier)
+    cases, outs, codes, kinfo = res["cases"], res["outs"], res["codes"], res["kinfo"]
+    kinds, ccodes = KINDS[pid], CODES[pid]
+    known = {k["id"]: k for k in PROPOSED_KNOWN}
+    for k in common.load_known():
+        if isinstance(k, dict) and k.get("id") in known:
+            known[k["id"]] = k
+    nontriv, evals, corr_ok, corr_all = set(), 0, 0, 0
+    dist = {}
+    for c in cases:
+        o = outs[c["id"]]
+        evals += 1
+        key = (c["solver"], c["kind"], "complex" if c["cplx"] else "real", c["x0k"], c["damp"])
+        dist[str(key[:3])] = dist.get(str(key[:3]), 0) + 1
+        if "error" in o:
+            R.violation("%s raised on a valid system: %s (%s)" % (c["solver"], o["error"], describe(c)), replay_dict(c, "error", o["error"]))
+            continue
+        if o["iiter"] >= 1 and np.any(o["x"]):
+            nontriv.add((c["kid"], c["niter"], c["tol"]))
+        cs = set(codes.get(c["id"], [])) if c.get("coq") else set()
+        k1 = k1_trigger(c["solver"], c["x0"], c["damp"])
+        bad = py_checks(c, o) + trace_checks(c, o)
+        found = set()
+        for kind, detail in bad:
+            if kind not in kinds:
+                continue
+            found.add(kind)
+            if kind == "minimiser" and k1:
+                R.known_finding("K-cgls-setup-damp", known["K-cgls-setup-damp"]["what"])
+            elif kind == "monotone" and k1:
+                R.known_finding("K-cgls-setup-damp", known["K-cgls-setup-damp"]["what"])
+            elif kind == "r1norm" and c["solver"] == "cgls" and r1_is_kold(c, o):
+                R.known_finding("K-cgls-r1norm", known["K-cgls-r1norm"]["what"])
+            elif kind == "r2norm" and k1 and o["iiter"] == 0:
+                R.known_finding("K-cgls-cost1-setup", known["K-cgls-cost1-setup"]["what"])
+            else:
+                R.violation("%s: %s [%s]" % (kind, detail, describe(c)), replay_dict(c, kind, detail))
+        if c.get("coq"):
+            corr_all += 1
+            corr = (cs & CORR_CODES & ccodes) - ({6} if (6 in cs and 12 not in cs) else set())
+            if 6 in cs and 12 not in cs:
+                R.notes.append("run %d: r1norm is truthful although the model (code as delivered) returns kold: K-cgls-r1norm appears repaired" % c["id"])
+            if not corr:
+                corr_ok += 1
+            elif not (found - {"r1norm"}):
+                R.violation("correspondence with the Coq model broken (%s) and no input violating the property itself was found [%s]"
+                            % ("; ".join(CODE_TXT[k] for k in sorted(corr)), describe(c)),
+                            dict(replay_dict(c, "correspondence", sorted(corr)), broken="Corr.CheckC09 codes %s" % sorted(corr)), no_input=True)
+            for code_, ks in CODE_KIND.items():
+                if code_ in cs and code_ in ccodes and not (set(ks) & {b[0] for b in bad}):
+                    R.violation("Coq exact evaluation: %s, not confirmed by the float re-check [%s]" % (CODE_TXT[code_], describe(c)),
+                                dict(replay_dict(c, "coq-code-%d" % code_, CODE_TXT[code_])), no_input=True)
+    ncert = 0
+    for kid, info in kinfo.items():
+        cs = set(codes.get(kid, []))
+        if info["nconv"]:
+            ncert += 1
+        for code_ in sorted(cs & ccodes):
+            if info["k1"] and code_ in (4, 9):
+                R.known_finding("K-cgls-setup-damp", known["K-cgls-setup-damp"]["what"])
+            else:
+                c = next(c for c in cases if c["kid"] == kid)
+                R.violation("model-level check failed: %s [%s]" % (CODE_TXT[code_], describe(c)),
+                            dict(replay_dict(c, "model-code-%d" % code_, CODE_TXT[code_])), no_input=True)
+    if res["fixed_ok"]:
+        R.notes.append("%d systems in the trigger region of K-cgls-setup-damp agree with the REPAIRED model (fixed=true) instead of the model "
+                       "of the code as delivered: the defect appears repaired in this tree" % len(res["fixed_ok"]))
+    # LSQR against SciPy
+    nl, ncmp = 0, 0
+    for L, (bad, nc, info) in zip(res["lsq"], res["lres"]):
+        nl += 1
+        ncmp += nc
+        evals += 1
+        if info.get("itn", 0) >= 1:
+            nontriv.add(("lsqr", L["kind"], L["cplx"], L["seed"], L["x0k"], L["damp"], L["niter"]))
+        for kind, detail in bad:
+            if kind in kinds:
+                R.violation("lsqr %s: %s [%s]" % (kind, detail, describe(L)), replay_dict(L, kind, detail))
+    R.cov.update(
+        obligations=len(thms) + corr_all + nl, discharged=len(thms) + corr_ok + sum(1 for b, _, _ in res["lres"] if not [x for x in b if x[0] in kinds]),
+        checker_cmd="make -C coq; coqc Solvers/CG.v Solvers/CGLS.v Corr/CheckC09.v; coqc Props/%s.v (Print Assumptions); "
+                    "coqc .work/C09/cases_*.v (vm_compute: pylops cg/cgls runs vs the Gallina model over Qc / Gaussian Qc); "
+                    "pylops.lsqr vs scipy.sparse.linalg.lsqr(iter_lim=k) per iteration" % pid,
+        theorems=thms, axioms_reported=axioms, evaluations=evals, distinct_nontrivial=len(nontriv),
+        rule="systems A = D + E (D diagonal in [6,12], E in [-2,2]; integers / Gaussian integers), square HPD (B^H B or symmetrised), "
+             "square general, tall 6x4, wide 4x6; integer y; x0 in {None, zeros, random}; damp in {0, 0.5, 3}; niter in {0,1,2,n,n+3} "
+             "and one run stopped by a tolerance placed between exact kold values; non-trivial = distinct (system, x0, damp, niter, tol) "
+             "with at least one iteration and a non-zero result",
+        cg_cgls_runs=len(cases), runs_compared_in_coq=corr_all, systems_with_exact_convergence_certificate=ncert,
+        runs_python_only_known_defect_region=sum(1 for c in cases if c.get("coq") is False),
+        lsqr_runs=nl, lsqr_scipy_comparisons=ncmp, distribution=dist, coq_files=res["nfiles"],
+        modelled="CG, CGLS (setup/step/run/finalize/solve) in Gallina; LSQR is NOT modelled (oracle: scipy.sparse.linalg.lsqr)",
+        t_python=round(res["t_python"], 1), t_coq=round(res["t_coq"], 1), proposed_known=[k["id"] for k in PROPOSED_KNOWN])
+    for c in cases[:: max(1, len(cases) // 5)]:
+        o = outs[c["id"]]
+        if "error" not in o:
+            R.samples.append({"case": describe(c), "A": [[str(t) for t in row] for row in c["Aop"]], "y": [str(t) for t in c["y"]],
+                              "iiter": o["iiter"], "x": [str(t) for t in o["x"]], "cost": o["cost"][:4], "coq_codes": codes.get(c["id"], [])})
+    if axioms and not set(axioms) <= common.ALLOWED_AXIOMS:
+        R.violation("Props/%s.v depends on unexpected axioms %s" % (pid, axioms), {"axioms": axioms}, no_input=True)
+    return R.finish()
+
+
+def r1_is_kold(c, o):
+    """Is the returned r1norm the squared norm of the normal-equation residual (what CGLS.finalize returns)?"""
+    A, d2, x = c["Aop"], c["damp"] ** 2, o["x"]
+    if o["iiter"] == 0:
+        return True   # setup value (depends on the setup quirk); the Coq correspondence (code 6) covers it
+    k = float(np.linalg.norm(A.conj().T @ (c["y"] - A @ x) - d2 * x) ** 2)
+    return abs(o["r1"] - k) <= 1e-6 * (1 + k) + 1e-12
